@@ -66,22 +66,21 @@ def expand(printed):
 
 
 NEG_CONTROLS = [
-    # cfg, invariant that MUST be reported violated
-    ("C16_Gen_bug_consistency", "ImplSound"),
-    ("C16_Gen_bug_leftover", "ImplSound"),
-    ("C16_Gen_bug_nomerge", "ImplSound"),
-    ("C16_Gen_bug_norepeat", "ImplComplete"),
+    # cfg (a planted defect in the transcription), invariants of which TLC MUST report one
+    # violated (which one it meets first depends on the search order)
+    ("C16_Gen_bug_consistency", ("ImplSound",)),
+    ("C16_Gen_bug_leftover", ("ImplSound", "ImplComplete")),
+    ("C16_Gen_bug_nomerge", ("ImplSound",)),
+    ("C16_Gen_bug_norepeat", ("ImplComplete",)),
 ]
-
-
 NEG_CONTROLS_QUICK = [NEG_CONTROLS[0]]
 
 
 def negative_control(cfg, inv):
     r = kit.run_tlc("C16_Gen", cfg, workers=2, heap="2g", env=JENV)
-    if inv not in r.invariant_violated:
+    if not set(inv) & set(r.invariant_violated):
         raise kit.MachineryError(
-            f"negative control {cfg}: TLC did not report {inv} violated "
+            f"negative control {cfg}: TLC did not report {' / '.join(inv)} violated "
             f"(rc={r.rc}): the model check cannot fail\n" + "\n".join(r.out.splitlines()[-15:]))
     return r
 
@@ -125,7 +124,16 @@ def judge_unifier(recs, wd, out, label, judged=None):
             continue
         if v["v"].startswith("SKIP"):
             out.skipped += 1
-            if v["v"] == "SKIP:refusal":
+            if v["v"] == "SKIP:outside_quantifier":
+                ext = stats.setdefault("extension_findings_outside_quantifier", {})
+                key = f'{v["xv"]}/{rec["exc"] or "-"}'
+                ext[key] = ext.get(key, 0) + 1
+                out.drift += 1
+                if len(stats.setdefault("extension_examples", [])) < 3:
+                    stats["extension_examples"].append(
+                        {"clause": v["xv"], "p": rec["p"], "t": rec["t"], "C": rec["C"],
+                         "exc": rec["exc"], "recs": rec["recs"]})
+            elif v["v"] == "SKIP:refusal":
                 stats["refusals"] += 1
                 if rec["C"] == ["*"]:
                     stats["refusals_default_candidates_none"] += 1
@@ -157,7 +165,7 @@ def generate(tier, seed, out):
             f"({gen.distinct} states, {gen.wall:.1f}s)")
     res = [gen]
     if tier == "thorough":
-        sim = kit.run_tlc("C16_Gen", "C16_Gen_sim", simulate="num=40000", depth=12, seed=seed,
+        sim = kit.run_tlc("C16_Gen", "C16_Gen_sim", simulate="num=200", depth=12, seed=seed,
                           workers=8, env=JENV)
         kit.require_clean(sim, "C16 random deeper patterns (-simulate)")
         res.append(sim)
